@@ -703,8 +703,8 @@ class C08(PairProp):
     id = "C08"
     cone = ["Properties/C08.vo"]
     prop_file = "Properties/C08.v"
-    theorems = ["C08_call_runs_the_substituted_body", "C08_examples"]
-    partial = ["the substitution itself (Model/Proc3.subst_block, the model of argsSubstBlock) is compared with the manual's four rules by the S-pairs oracle (an independent Python substitution), not against a Coq specification",
+    theorems = ["C08_call_runs_the_substituted_body", "C08_substitution_rules", "C08_text_without_arguments_is_unchanged", "C08_examples"]
+    partial = ["the substitution of a text (Model/Proc3.subst_text) is proved to be the inline-by-inline replacement of the manual's rules when every argument referred to exists (C08_substitution_rules); the missing-argument cases and the whole-argument \\$@ of subst_block are compared with an independent Python substitution by the S-pairs oracle",
                "lifting the state-level equation to byte equality of whole documents needs the frame facts 'call depth, location and expansion count are not read by rendering', tied by S-pairs"]
     describe_pairs = "user macro invocation vs body with arguments substituted"
     BODIES = [[".Sm \\$1"], ["a \\$1 b"], [".Sm \\$1: \\$1=\\$2", "The key \\$1 is set."], [".P \\$@"], [".Sm \\$@"], ["x \\$@ y"], [".Sm -t t \\$1 \\$2"], ["\\$1\\$2"], [".Sm \\$2 \\$1"],
